@@ -19,12 +19,14 @@ def run(prop, tier):
     for rb in (4, 16):
         for f in (4, 6):
             jobs.append(dict(src=SRC, ksim=True, args=["dgram", "-p", p, "-d", d, "--", rb, f]))
+    jobs.append(dict(src=SRC, ksim=True, args=["dgram", "-p", p, "-d", d, "--", 4, 4, "z"]))       # empty datagrams
+    jobs.append(dict(src=SRC, ksim=True, args=["dgram", "-p", p, "-d", d, "--", 16, 6, "z"]))
     jobs.append(dict(src=SRC, ksim=True, args=["peergone", "-p", p + 1, "-d", d]))
     jobs.append(dict(src=SRC, ksim=True, args=["halfclose", "-p", p, "-d", d]))
     acc = mcsched.run_jobs(prop, tier, jobs, extra_props=("SCHED", "RACE", "UAF", "POSIX", "MEM", "KSIM"))
     cov = mcsched.coverage(acc, "client and server threads, each with its own PSocket, over the in-memory socket layer KSIM (8-byte stream buffers, 2-datagram queues, so short writes and EAGAIN arise on their own): "
                                 "all interleavings with <= %d preemptions x all patterns of <= %d deviations (EINTR at connect/accept/send/sendto/recv/recvfrom/poll, spurious EAGAIN, extra-short transfer); "
-                                "message/chunk/buffer sizes around the buffer size, blocking and non-blocking mixes, both families, datagrams of 1/5/9 bytes into 4/16-byte buffers, sends to a closed peer; "
+                                "message/chunk/buffer sizes around the buffer size, blocking and non-blocking mixes, both families, datagrams of 1/5/9 and of 0/5/0 bytes into 4/16-byte buffers, sends to a closed peer; "
                                 "oracle: bytes received = bytes reported sent, datagram identity and sender address, no internal would-block/interrupted error surfaced in blocking mode, no SIGPIPE, all threads finish" % (p, d))
     return common.finish(prop, tier, "model_checking", acc, cov, mcsched.ASSUME + [
         "KSIM models the Linux socket calls psocket.c uses; it is bound to the real kernel by the conformance replay of the C10 check (every sequential API trace is also run on real loopback sockets)",
